@@ -76,6 +76,10 @@ def run(ctx):
                 n_instr = rng.randint(1, 3)
                 n_mw = rng.randint(0, 3)
                 partials = instr_mon.partial_spec(rng, n_instr)
+                nest = rng.randrange(1000) if rng.random() < 0.4 else None
+                if nest is not None and nest % 2 and n_instr + len(partials) >= 2:
+                    # the group's own hooks are checked like a partial member that overrides every hook
+                    partials = list(partials) + [(instr_mon.GROUP_TAG, sorted(instr_mon.HOOKS), -1)]
                 expected_paths, ref = None, None
                 if cls == "executed":
                     ref = refexec.reference_result(case.ir, doc, op, variables, case.world)
@@ -101,7 +105,7 @@ def run(ctx):
                 expected_stages = [st for st in EXPECTED_STAGES[cls] if st != "parsing" or request is text]
                 for config in configs:
                     def extra():
-                        return {"instrumentation": instr_mon.make_instrumentations(log, n_instr, partials),
+                        return {"instrumentation": instr_mon.make_instrumentations(log, n_instr, [p for p in partials if p[2] >= 0], nest),
                                 "middlewares": [instr_mon.make_middleware(log, i) for i in range(n_mw)]}
 
                     def run_with(ch, config=config, eager=False):
